@@ -356,7 +356,7 @@ func (p *Properties) Unpack(bufr *bytes.Buffer, packetType byte) error {
 		return codes.ErrMalformed
 	}
 	if length == 0 {
-		return nil
+		return checkPacketEnd(bufr, packetType)
 	}
 	newBufr := bytes.NewBuffer(bufr.Next(length))
 	var propType byte
@@ -464,6 +464,18 @@ func (p *Properties) Unpack(bufr *bytes.Buffer, packetType byte) error {
 	}
 	if p.AuthData != nil && p.AuthMethod == nil {
 		return codes.ErrMalformed
+	}
+	return checkPacketEnd(bufr, packetType)
+}
+
+// checkPacketEnd reports bytes left over after the properties of a packet type that has nothing
+// after its properties (no payload).
+func checkPacketEnd(bufr *bytes.Buffer, packetType byte) error {
+	switch packetType {
+	case CONNACK, PUBACK, PUBREC, PUBREL, PUBCOMP, DISCONNECT, AUTH:
+		if bufr.Len() != 0 {
+			return codes.ErrMalformed
+		}
 	}
 	return nil
 }
